@@ -150,10 +150,10 @@ def operand_histories():
 def subchecks(tier):
     q = tier == "quick"
     return [
-        Sub("history", None, test, 48 if q else 1500, kind="machine",
+        Sub("history", None, test, 96 if q else 1500, kind="machine",
             machine=factory, steps=30, shards=8 if q else 16, max_rounds=3, shrink_quick=False,
             generic=designed_histories() + operand_histories()),
-        Sub("history_aggressive", None, test, 48 if q else 1500,
+        Sub("history_aggressive", None, test, 96 if q else 1500,
             kind="machine", machine=factory_aggr, steps=40,
             shards=8 if q else 16, max_rounds=3, shrink_quick=False),
     ]
